@@ -33,6 +33,7 @@ type decision struct {
 	val       uint64
 	excluded  []uint64
 	retry     bool // for 'v': next visit must draw a new value
+	last      bool // for 'v': no further value is feasible (checked when val was drawn): do not retry
 }
 
 // Config bounds one harness run.
@@ -48,6 +49,7 @@ type Config struct {
 	Params     map[string]int  // harness parameters (vrt.Param)
 	Trace      bool
 	MapOrder   bool // nondeterministic map iteration order (<= 4 entries)
+	SymbolicShifts bool // keep symbolic shift amounts as terms instead of forking over their values
 }
 
 type knownPred struct {
@@ -532,6 +534,7 @@ func (m *Machine) concretize(t *Term) uint64 {
 			}
 		}
 		d.val = v
+		d.last = m.noOtherValue(t, append(append([]uint64{}, d.excluded...), v))
 		m.pos++
 		m.log = m.log[:m.pos]
 		m.addPC(m.tt.Eq(t, m.tt.Const(t.W, v)))
@@ -548,17 +551,32 @@ func (m *Machine) concretize(t *Term) uint64 {
 		panic(pathEnd{"infeasible", "concretize"})
 	}
 	v := Eval(t, model, map[*Term]uint64{})
-	m.log = append(m.log, decision{kind: 'v', val: v})
+	m.log = append(m.log, decision{kind: 'v', val: v, last: m.noOtherValue(t, []uint64{v})})
 	m.pos++
 	m.stats.Forks++
 	m.addPC(m.tt.Eq(t, m.tt.Const(t.W, v)))
 	return v
 }
 
+// noOtherValue reports whether, under the current path condition, t cannot take any value outside
+// vals (then the concretisation decision needs no retry path).
+func (m *Machine) noOtherValue(t *Term, vals []uint64) bool {
+	extra := make([]*Term, 0, len(vals))
+	for _, e := range vals {
+		extra = append(extra, m.tt.Ne(t, m.tt.Const(t.W, e)))
+	}
+	m.stats.BranchQ++
+	return m.solver.Check(m.pc, extra, nil, nil) == Unsat
+}
+
 // nextLog computes the next decision log for DFS; returns false when exhausted.
 func nextLog(log []decision) ([]decision, bool) {
 	for len(log) > 0 {
 		d := &log[len(log)-1]
+		if d.kind == 'v' && d.last {
+			log = log[:len(log)-1]
+			continue
+		}
 		if d.kind == 'v' {
 			d.excluded = append(d.excluded, d.val)
 			d.retry = true
